@@ -78,3 +78,19 @@ META["C13"] = {
         "chi^2/dof is compared only for sequences without empty results (positive variances, as in the property)",
     ],
 }
+
+META["C14"] = {
+    "level": "exploration",
+    "tiers": {
+        "quick": {"shards": 3, "deadline_s": 200,
+                  "bounds": "all sequences of length 1..7 over {+-1, +-h, +-2^12} (h = 2^-p (1+2^-10)); block sequences prefix (length <= 2) + k copies, k = 10..10^6 (10^5 for prefixes of length 2); eight named families with N = 1..10^6; integral with/without distributions and one distribution bin; 3 types"},
+        "thorough": {"shards": 3, "deadline_s": 1500,
+                     "bounds": "as quick with sequences up to length 9, prefixes up to length 3, k and N up to 10^7"},
+    },
+    "rule": "nested enumeration of value sequences fed to hep::plain_iteration by a scripted integrand; a sequence is non-trivial when naive left-to-right summation in T is not exact for it (measured); distinct = distinct non-trivial sequences plus distinct block/family cases",
+    "assumptions": [
+        "exact oracle in 128-bit fixed point for the dyadic alphabet, __float128 for the named families",
+        "bound 2 eps_T sum|v| (= 4u sum|v|); compensated summation guarantees (2u + O(N u^2)) sum|v|, N u <= 0.6 for the largest N and the coarsest type",
+        "independence of N is shown for the enumerated sequences and families only",
+    ],
+}
